@@ -191,6 +191,9 @@ func c05Case(c *Ctx) {
 		if lim.MaxLeaves > 6000 && !c.Thorough() {
 			lim.MaxLeaves = 6000
 		}
+		if w.SepTrials > 0 {
+			defer knobs(w.SepTrials, 1)()
+		}
 		b, err := w.Build()
 		if err != nil {
 			return
@@ -233,6 +236,13 @@ func c05Case(c *Ctx) {
 			c.Distinct("nontrivial", w.String())
 		}
 		size := len(b.Kept)
+		// passwords already returned must stay what they were while the same list serves other recipes
+		type kept struct {
+			p    *spg.Password
+			toks []TokRec
+			str  string
+		}
+		var retained []kept
 		for run := 0; run < 6; run++ {
 			var tp *tape.Tape
 			script := make([]uint32, 4*w.Length+8)
@@ -272,6 +282,33 @@ func c05Case(c *Ctx) {
 			}
 			if run == 0 && k == 0 && c.Case < trees+3 {
 				c.Sample(map[string]interface{}{"recipe": w.String(), "list_size": size, "script": "last alternative at every draw", "tokens": abbreviateToks(tokRecs(g.Pw))})
+			}
+			retained = append(retained, kept{g.Pw, tokRecs(g.Pw), g.Pw.String()})
+			// another recipe of a different shape on the same list, then look at the earlier passwords again
+			other := spg.NewWLRecipe(1+(w.Length+run)%7, b.List)
+			other.Capitalize = spg.CapScheme(schemes[(run+1)%5])
+			other.SeparatorChar = []string{"", "-", "語語"}[run%3]
+			if og := runGen(other, nil); og.Pw != nil {
+				c.Exec(1)
+				retained = append(retained, kept{og.Pw, tokRecs(og.Pw), og.Pw.String()})
+			}
+			changed := false
+			for ri, r := range retained {
+				now := tokRecs(r.p)
+				same := len(now) == len(r.toks) && r.p.String() == r.str
+				for i := 0; same && i < len(now); i++ {
+					same = now[i] == r.toks[i]
+				}
+				if !same {
+					c.Violate("returned-password-changed-later", fmt.Sprintf("recipe %s: a password returned earlier (%q) reads %q after further generations from the same word list", w.String(), r.str, r.p.String()),
+						map[string]interface{}{"recipe": w.String(), "earlier_tokens": abbreviateToks(r.toks), "now_tokens": abbreviateToks(now), "retained_index": ri})
+					changed = true
+					break
+				}
+			}
+			c.Count("retained_passwords_rechecked", int64(len(retained)))
+			if changed {
+				break
 			}
 		}
 		_ = strings.Join
